@@ -7,7 +7,7 @@ From FB Require Import Base Syntax World SlotMap Fub Unbounded Step StepProofs U
 Definition P0 : params := {| pB := 2; pMinCap := 1; pGrowth := 2; pW := 8 |}.
 Lemma P0_ok : params_ok P0. Proof. unfold params_ok, P0; cbn; repeat split; lia. Qed.
 
-Definition cp0 : cparams := {| p_cap := 0; p_new := true; p_iter := false; p_lazy := false; p_seed := None; p_hlo := 0; p_hhi := None |}.
+Definition cp0 : cparams := {| p_cap := 0; p_new := true; p_iter := false; p_lazy := None; p_seed := None; p_hlo := 0; p_hhi := None |}.
 
 (** three children that stay pending: two groups (capacities 1 and 2), both non-empty *)
 Definition ops_pending : list op :=
@@ -84,7 +84,7 @@ Qed.
     every prefix is small, so the order invariant holds at its end; counters seeded at 250 so
     that the positions wrap *)
 From FB Require Import Ordered OrderProofs FobOrder OrderReach.
-Definition cp_fob : cparams := {| p_cap := 3; p_new := false; p_iter := false; p_lazy := false; p_seed := Some 250%Z; p_hlo := 0; p_hhi := None |}.
+Definition cp_fob : cparams := {| p_cap := 3; p_new := false; p_iter := false; p_lazy := None; p_seed := Some 250%Z; p_hlo := 0; p_hhi := None |}.
 Definition ops_fob : list op :=
   [OBuild TFOB cp_fob [] []; OPush 1%N [([], RP); ([], RR)]; OPushF 2%N [([], RR)]; OPush 3%N [([], RR)]; OPoll 0 no_inj; OPoll 0 no_inj].
 
@@ -168,7 +168,7 @@ Qed.
     in between and an end: the polls of the upstream over the whole history are the upstream's
     own sequence of answers, and the end is seen exactly once *)
 From FB Require Import Adapters UpstreamLedger.
-Definition cp_ad : cparams := {| p_cap := 2; p_new := false; p_iter := false; p_lazy := false; p_seed := None; p_hlo := 0; p_hhi := None |}.
+Definition cp_ad : cparams := {| p_cap := 2; p_new := false; p_iter := false; p_lazy := None; p_seed := None; p_hlo := 0; p_hhi := None |}.
 Definition ups_ex : list upstep := [UItem [([], RR)]; UPend []; UItem [([], RP); ([], RR)]; UItem [([], RR)]; UEnd].
 Definition ops_up : list op :=
   [OBuild TBU cp_ad [] ups_ex; OPoll 0 no_inj; OPoll 0 no_inj; OPoll 0 no_inj; OPoll 0 no_inj; OPoll 0 no_inj; OPoll 0 no_inj].
@@ -181,7 +181,7 @@ Proof. vm_compute. split; reflexivity. Qed.
     and are parked: the poll grows the heap twice (0 -> 4 -> 8); 9 allocator calls in all at a
     peak of 7 (in progress + parked) *)
 From FB Require Import Ordered.
-Definition cp_fo : cparams := {| p_cap := 0; p_new := true; p_iter := false; p_lazy := false; p_seed := None; p_hlo := 0; p_hhi := None |}.
+Definition cp_fo : cparams := {| p_cap := 0; p_new := true; p_iter := false; p_lazy := None; p_seed := None; p_hlo := 0; p_hhi := None |}.
 Definition ops_fo : list op :=
   [OBuild TFO cp_fo [] []; OPush 1%N [([], RP); ([], RR)]; OPush 2%N [([], RR)]; OPush 3%N [([], RR)]; OPush 4%N [([], RR)];
    OPush 5%N [([], RR)]; OPush 6%N [([], RR)]; OPush 7%N [([], RR)]; OPoll 0 no_inj; OEnv (AWakeRef 0)].
